@@ -28,9 +28,11 @@ def one_acquire_one_release(ctx):
         on = [n for c in others for n in g.nodes_of(c)]
         ctx.ob(f, 'the acquire is the first thing the try does', bool(t) and g.all_dominate(g.nodes_of(acq[0]), on, g.NORMAL),
                'a failure before the acquire (on_queued, serialisation, a missing file) runs the handler, which releases a permit that was never taken: the limit grows by one per failure')
-    inits = [v for st, v in q.local_defs(f, 'on_done_after_calls') if isinstance(v, ast.AST)]
+    aln = q.names_defined_by(f, lambda v: isinstance(v, ast.List) and any(norm(e) == 'self._release_semaphore' for e in v.elts))
+    AL = aln[0] if len(aln) == 1 else 'on_done_after_calls'
+    inits = [v for st, v in q.local_defs(f, AL) if isinstance(v, ast.AST)]
     ok = len(inits) == 1 and isinstance(inits[0], ast.List) and [norm(e) for e in inits[0].elts].count('self._release_semaphore') == 1
-    apps = [c for c in own_calls(f.node) if (dotted(c.func) or '') == 'on_done_after_calls.append']
+    apps = [c for c in own_calls(f.node) if (dotted(c.func) or '') == f'{AL}.append']
     ok = ok and all('release' not in norm(c.args[0]) for c in apps)
     ctx.ob(f, 'on_done_after_calls holds self._release_semaphore exactly once', ok, 'the permit would be released twice or never')
     # both continuations
@@ -38,17 +40,18 @@ def one_acquire_one_release(ctx):
     ctx.need(hs, '_submit_transfer has no except handler')
     h = hs[0]
     cb = [c for s in h.body for c in ast.walk(s) if isinstance(c, ast.Call) and (dotted(c.func) or '').endswith('get_crt_callback')]
-    ok = len(cb) == 1 and norm(kwarg(cb[0], 'after_subscribers') or (cb[0].args[3] if len(cb[0].args) > 3 else None)) == 'on_done_after_calls' \
+    ok = len(cb) == 1 and norm(kwarg(cb[0], 'after_subscribers') or (cb[0].args[3] if len(cb[0].args) > 3 else None)) == AL \
         and len(cb[0].args) >= 2 and norm(cb[0].args[1]) == "'done'"
     var = cb[0]._parent.targets[0].id if cb and isinstance(cb[0]._parent, ast.Assign) else None
     called = [c for s in h.body for c in ast.walk(s) if isinstance(c, ast.Call) and isinstance(c.func, ast.Name) and c.func.id == var]
     ctx.ob(f, "handler: on_done = get_crt_callback(future, 'done', after_subscribers=on_done_after_calls); on_done(error=e)", ok and len(called) == 1 and norm(kwarg(called[0], 'error')) == h.name
            and norm(h.type) in ('Exception', 'BaseException'),
            'when building/submitting the request fails the permit is never released and the subscribers never hear about it')
-    rec = [c for s in h.body for c in ast.walk(s) if isinstance(c, ast.Call) and (dotted(c.func) or '') == 'coordinator.set_exception']
+    cn = (q.names_defined_by(f, lambda v: isinstance(v, ast.Call) and norm(v.func) == 'CRTTransferCoordinator') or ['coordinator'])[0]
+    rec = [c for s in h.body for c in ast.walk(s) if isinstance(c, ast.Call) and (dotted(c.func) or '') == f'{cn}.set_exception']
     ctx.ob(f, 'handler records the error on the coordinator before on_done', len(rec) == 1 and norm(rec[0].args[0]) == h.name and bool(called) and rec[0].lineno < called[0].lineno, 'result() would not raise')
     mk = [c for c in own_calls(f.node) if (dotted(c.func) or '').endswith('get_make_request_args')]
-    ok = len(mk) == 1 and 'on_done_after_calls' in [norm(a) for a in mk[0].args] + [norm(k.value) for k in mk[0].keywords]
+    ok = len(mk) == 1 and AL in [norm(a) for a in mk[0].args] + [norm(k.value) for k in mk[0].keywords]
     ctx.ob(f, 'normal path: get_make_request_args(..., on_done_after_calls)', ok, 'the CRT on_done callback would not release the permit')
     rel = ctx.func('crt.CRTTransferManager._release_semaphore')
     cs = [c for c in own_calls(rel.node) if (dotted(c.func) or '') == 'self._semaphore.release']
@@ -58,7 +61,8 @@ def one_acquire_one_release(ctx):
     # forwarding through the builders
     creator = ctx.cls('crt.S3ClientArgsCreator')
     gm = creator.methods['get_make_request_args']
-    cs = [c for c in own_calls(gm.node) if isinstance(c.func, ast.Name) and c.func.id == 'request_args_handler']
+    hn = (q.names_defined_by(gm, lambda v: isinstance(v, ast.Call) and norm(v.func) == 'getattr') or ['request_args_handler'])[0]
+    cs = [c for c in own_calls(gm.node) if isinstance(c.func, ast.Name) and c.func.id == hn]
     ok = len(cs) == 1 and norm(kwarg(cs[0], 'on_done_after_calls')) == 'on_done_after_calls' and norm(kwarg(cs[0], 'on_done_before_calls')) == '[]'
     ctx.ob(gm, 'get_make_request_args forwards on_done_after_calls (fresh before-list)', ok, 'after-calls lost on the way to the request builder')
     builders = [m for name, m in creator.methods.items() if name.startswith('_get_make_request_args_')]
@@ -86,22 +90,27 @@ def callback_composition_order(ctx):
     after list behind the release; RenameTempFileHandler goes to the before list."""
     f = ctx.func('crt.S3ClientArgsCreator.get_crt_callback.<locals>.invoke_all_callbacks')
     g = ctx.cfg(f)
-    adds = [n for n in own_nodes(f.node) if isinstance(n, ast.AugAssign) and norm(n.target) == 'callbacks_list']
+    lps = [l for l in own_nodes(f.node) if isinstance(l, ast.For) and isinstance(l.iter, ast.Name)]
+    CL = norm(lps[0].iter) if len(lps) == 1 else 'callbacks_list'
+    adds = [n for n in own_nodes(f.node) if isinstance(n, ast.AugAssign) and norm(n.target) == CL]
     seq = [norm(n.value) for n in sorted(adds, key=lambda n: n.lineno)]
     ok = seq == ['before_subscribers', 'get_callbacks(future, callback_type)', 'after_subscribers']
     if ok:
         a, b, c = [g.nodes_of(n) for n in sorted(adds, key=lambda n: n.lineno)]
         ok = g.all_dominate(b, c, g.NORMAL) and not (g.reach(b, labels=g.NORMAL) & set(a)) and not q.guards(sorted(adds, key=lambda n: n.lineno)[1])
     ctx.ob(f, 'callbacks_list = before + subscribers + after', ok, f'on_done subscribers must run after the rename and before the permit release / done handler: {seq}')
-    init = [v for st, v in q.local_defs(f, 'callbacks_list') if isinstance(st, ast.Assign) and isinstance(v, ast.AST)]
+    init = [v for st, v in q.local_defs(f, CL) if isinstance(st, ast.Assign) and isinstance(v, ast.AST)]
     ctx.ob(f, 'callbacks_list starts empty', len(init) == 1 and norm(init[0]) == '[]', f'{[norm(v) for v in init]}')
-    loops = [n for n in own_nodes(f.node) if isinstance(n, ast.For) and norm(n.iter) == 'callbacks_list']
-    calls = [c for c, r in q.calls_in(ctx, f) if r.kind == 'open' and r.ext == 'callback']
+    loops = [n for n in own_nodes(f.node) if isinstance(n, ast.For) and norm(n.iter) == CL]
+    calls = [c for c, r in q.calls_in(ctx, f) if r.kind == 'open' and loops and isinstance(c.func, ast.Name) and c.func.id == norm(loops[0].target)]
     ok = len(loops) == 1 and calls and all(q.in_loop(c) is loops[0] for c in calls)
     ctx.ob(f, 'for callback in callbacks_list: callback(...) in list order', ok, 'callbacks are not invoked in composition order')
     s = ctx.func('crt.CRTTransferManager._submit_transfer')
-    apps = [c for c in own_calls(s.node) if (dotted(c.func) or '') == 'on_done_after_calls.append']
-    ok = len(apps) == 1 and isinstance(apps[0].args[0], ast.Name) and any(isinstance(v, ast.Call) and norm(v) == 'AfterDoneHandler(coordinator)' for _, v in q.local_defs(s, apps[0].args[0].id)) \
+    aln = q.names_defined_by(s, lambda v: isinstance(v, ast.List) and any(norm(e) == 'self._release_semaphore' for e in v.elts))
+    AL = aln[0] if len(aln) == 1 else 'on_done_after_calls'
+    cn = (q.names_defined_by(s, lambda v: isinstance(v, ast.Call) and norm(v.func) == 'CRTTransferCoordinator') or ['coordinator'])[0]
+    apps = [c for c in own_calls(s.node) if (dotted(c.func) or '') == f'{AL}.append']
+    ok = len(apps) == 1 and (q.ntext(s, apps[0].args[0]) == f'AfterDoneHandler({cn})') \
         and not q.guards(apps[0]) and not q.enclosing_trys(apps[0])
     ctx.ob(s, 'on_done_after_calls.append(AfterDoneHandler(coordinator)) - after the release, unconditionally', ok, 'done-callbacks-complete would be signalled before the permit is released / not at all')
     gobj = ctx.func('crt.S3ClientArgsCreator._get_make_request_args_get_object')
@@ -131,7 +140,8 @@ def shutdown_waits_for_callbacks(ctx):
     ctx.ob(w, 'wait for the done callbacks of every tracked coordinator', ok, 'some transfer is not waited for')
     s = ctx.func('crt.CRTTransferManager._submit_transfer')
     g = ctx.cfg(s)
-    app = [x for c in own_calls(s.node) if (dotted(c.func) or '') == 'self._future_coordinators.append' and norm(c.args[0]) == 'coordinator' for x in g.nodes_of(c)]
+    cn = (q.names_defined_by(s, lambda v: isinstance(v, ast.Call) and norm(v.func) == 'CRTTransferCoordinator') or ['coordinator'])[0]
+    app = [x for c in own_calls(s.node) if (dotted(c.func) or '') == 'self._future_coordinators.append' and norm(c.args[0]) == cn for x in g.nodes_of(c)]
     ctx.ob(s, 'self._future_coordinators.append(coordinator) on every normal path', bool(app) and g.must_pass([g.entry], app, [g.exit], None), 'an untracked transfer is not waited for at shutdown')
     c = ctx.cls('crt.CRTTransferCoordinator')
     sd = c.methods['set_done_callbacks_complete']
